@@ -61,6 +61,79 @@ def oracle(op, L, R):
     return o
 
 
+def unary_sem(op, L, le):
+    """C++ value of the built-in unary expression on an operand of type L (integral promotion first)"""
+    P = CT.promote(L)
+    w = P.bits + 4
+    v = wval(le, L, w)
+    pc = '((%s)(%s)%s)' % (P.ctype, L.sctype, le)
+    if op == 'minus':
+        req = ['%s != %s' % (v, wconst(P.min, w))] if P.signed else []
+        return dict(res=P, requires=req, value='((%s)(-%s))' % (P.ctype, v))
+    if op == 'plus':
+        return dict(res=P, requires=[], value=pc)
+    return dict(res=P, requires=[], value='((%s)(~%s))' % (P.ctype, pc))
+
+
+def py_unary(op, L, a):
+    P = CT.promote(L)
+    if op == 'minus':
+        if P.signed and a == P.min:
+            return None
+        return CT.wrap(-a, P)
+    if op == 'plus':
+        return CT.wrap(a, P)
+    return CT.wrap(~a, P)
+
+
+def unary_contract(op, L):
+    def gen(m, fi, tr):
+        if fi['nparams'] != 1:
+            return None
+        s = unary_sem(op, L, arg_rep(tr, fi, 0))
+        return Contract(requires=s['requires'], ensures=['(%s)$RET == %s' % (s['res'].ctype, s['value'])], assigns=[],
+                        note='ret == %s x evaluated by the C++ rules for %s' % ({'minus': '-', 'plus': '+', 'bitwise_not': '~'}[op], L.name))
+    return gen
+
+
+def compound_contract(op, L, R):
+    """a op= b: afterwards rep(a) == (L)(a op b) by the C++ rules, under exactly 'a op b is defined'"""
+    def gen(m, fi, tr):
+        if fi['nparams'] != 2:
+            return None
+        cur = arg_rep(tr, fi, 0)
+        s = builtin_sem(op, L, R, '__CPROVER_old(%s)' % cur, arg_rep(tr, fi, 1))
+        req = [r.replace('__CPROVER_old(%s)' % cur, cur) for r in s['requires']]
+        return Contract(requires=req, ensures=['(%s)%s == (%s)%s' % (L.ctype, cur, L.ctype, s['value'])], assigns=['*a0'],
+                        note='a %s= b leaves a == (%s)(a %s b)' % (OPS[op], L.name, OPS[op]))
+    return gen
+
+
+def py_compound(op, L, R):
+    def o(a, b):
+        v = py_builtin(op, L, R, a, b)
+        return None if v is None else ('value', CT.wrap(v, L))
+    return o
+
+
+def step_contract(L, delta, post):
+    def gen(m, fi, tr):
+        cur = arg_rep(tr, fi, 0)
+        P = CT.promote(L)
+        w = P.bits + 4
+        old = wval('__CPROVER_old(%s)' % cur, L, w)
+        pre = wval(cur, L, w)
+        e_pre = '(%s %s 1)' % (pre, '+' if delta > 0 else '-')
+        e_old = '(%s %s 1)' % (old, '+' if delta > 0 else '-')
+        req = ['%s >= %s && %s <= %s' % (e_pre, wconst(P.min, w), e_pre, wconst(P.max, w))] if P.signed else []
+        ens = ['(%s)%s == (%s)%s' % (L.ctype, cur, L.ctype, e_old)]
+        if post:
+            ens.append('(%s)$RET == (%s)__CPROVER_old(%s)' % (L.ctype, L.ctype, cur))
+        return Contract(requires=req, ensures=ens, assigns=['*a0'], note='%s%s: a == old(a) %s 1 converted back to %s%s'
+                        % ('post' if post else 'pre', 'increment' if delta > 0 else 'decrement', '+' if delta > 0 else '-', L.name, '; returns the old value' if post else ''))
+    return gen
+
+
 def plan(tier):
     thorough = tier == 'thorough'
     src = [KERNEL_HEAD]
@@ -144,6 +217,57 @@ def plan(tier):
                     jobs.append(Job('%s.L3.%s' % (PROP, tag), kname, P_PUBLIC_ANY, c0, via=sname, shim=sname, shim_types=types,
                                     oracle=orc, prop=PROP, timeout=120, layer=3))
                     n_inst += 1
+    # unary operators, compound assignment, ++/--: whole public operator with everything inlined
+    P_UN = r'^auto cnl::_impl::operator[-+~]<cnl::_impl::wrapper<[^()]*>\s?>\(cnl::_impl::wrapper<[^()]*> const&\)$'
+    un_types = ['i8', 'i32', 'u32'] + (['u8', 'i16', 'i64', 'u64'] if thorough else [])
+    for nest in (['s0', 'on', 'rn', 's0_on'] if thorough else ['s0', 'on', 'rn']):
+        for l in un_types:
+            if not thorough and nest != 's0' and l == 'i8':
+                continue
+            L = T(l)
+            A = NESTS[nest](cxx(l))
+            for op, sym in (('minus', '-'), ('plus', '+'), ('bitwise_not', '~')):
+                tag = 'un_%s_%s_%s' % (nest, op, l)
+                sname = 'vp_' + tag
+                P = CT.promote(L)
+                src.append(shim(short_of(P), sname, [(l, 'a')], 'return cnl::unwrap(%scnl::_impl::from_rep<%s>(a));' % (sym, A)))
+                jobs.append(Job('%s.L3.%s' % (PROP, tag), kname, P_UN, unary_contract(op, L), via=sname, shim=sname, shim_types=[l],
+                                oracle=(lambda op, L: lambda a: (lambda v: None if v is None else ('value', v))(py_unary(op, L, a)))(op, L),
+                                prop=PROP, timeout=120, layer=3))
+                n_inst += 1
+    P_CA = r'^auto cnl::_impl::operator(?:[-+*/%&|^]|<<|>>)=<cnl::_impl::wrapper<'
+    ca_types = [('i32', 'i32'), ('i16', 'i16'), ('u8', 'i32')] + ([('i8', 'i8'), ('u32', 'i32'), ('i16', 'u16'), ('i64', 'i32')] if thorough else [])
+    ca_ops = ['add', 'subtract', 'multiply', 'divide', 'modulo', 'bitwise_and', 'bitwise_or', 'bitwise_xor', 'shift_left', 'shift_right']
+    for nest in (['s0', 'on', 'rn'] if thorough else ['s0', 'on']):
+        for (l, r) in ca_types:
+            L, R = T(l), T(r)
+            A, B = NESTS[nest](cxx(l)), NESTS[nest](cxx(r))
+            for op in ca_ops:
+                if not thorough and nest != 's0' and op not in ('add', 'multiply', 'shift_right'):
+                    continue
+                for rhs_kind in (('w', 'b') if (thorough or (l, r) == ('i32', 'i32')) else ('w',)):
+                    tag = 'ca%s_%s_%s_%s_%s' % (rhs_kind, nest, op, l, r)
+                    sname = 'vp_' + tag
+                    rhs = 'cnl::_impl::from_rep<%s>(b)' % B if rhs_kind == 'w' else 'b'
+                    src.append(shim(l, sname, [(l, 'a'), (r, 'b')], 'auto x = cnl::_impl::from_rep<%s>(a); x %s= %s; return cnl::unwrap(x);' % (A, OPS[op], rhs)))
+                    absm = dict(abstract_mul=True, abstract_div=True) if op in ('multiply', 'divide', 'modulo') else {}
+                    jobs.append(Job('%s.L3.%s' % (PROP, tag), kname, P_CA, compound_contract(op, L, R), via=sname, shim=sname, shim_types=[l, r],
+                                    oracle=py_compound(op, L, R), prop=PROP, timeout=120, layer=3, skip_this=False, **absm))
+                    n_inst += 1
+    for nest in (['s0', 'on', 'rn'] if thorough else ['s0', 'on']):
+        for l in (['i32', 'i8', 'u16'] + (['u32', 'i64'] if thorough else [])):
+            L = T(l)
+            A = NESTS[nest](cxx(l))
+            for name, expr, delta, post in (('preinc', '++x', 1, False), ('predec', '--x', -1, False), ('postinc', 'x++', 1, True), ('postdec', 'x--', -1, True)):
+                tag = 'st_%s_%s_%s' % (nest, name, l)
+                sname = 'vp_' + tag
+                src.append(shim(l, sname, [(l, 'a')], 'auto x = cnl::_impl::from_rep<%s>(a); %s; return cnl::unwrap(x);' % (A, expr)))
+                pat = r'cnl::_impl::operator(\+\+|--)<cnl::_impl::wrapper<[^()]*>\s?>\(cnl::_impl::wrapper<[^()]*>&%s\)$' % (', int' if post else '')
+                P = CT.promote(L)
+                orc = (lambda L, P, delta: lambda a: None if (P.signed and not P.min <= a + delta <= P.max) else ('value', CT.wrap(a + delta, L)))(L, P, delta)
+                jobs.append(Job('%s.L3.%s' % (PROP, tag), kname, pat, step_contract(L, delta, post), via=sname, shim=sname, shim_types=[l],
+                                oracle=orc, prop=PROP, timeout=120, layer=3, skip_this=False))
+                n_inst += 1
     k = Kernel(kname, ''.join(src), [], 'native-tag wrappers')
     meta = {'instantiations': n_inst,
             'explanation': 'wrapper operators proved equal to the built-in expression on the reps, layer by layer; the promoted result type is a compile-time fact',
